@@ -1061,7 +1061,7 @@ func init() {
 		ID:    "C03",
 		Level: "exploration",
 		Rule: "each history = one real obiiter combinator (or composition, or end-to-end command) fed with a partition of uniquely identified records into batches (sizes from {0,1,2,3,5}, 0..6 batches exhaustively permuted up to 4 (quick) / 5 (thorough) batches, random permutations up to 38) pushed in a chosen arrival order, 1..8 workers; the batches observed at the output iterator are checked against the per-combinator specification (numbering 0..m-1, exactly-once, order, closure). " +
-			"Added later: LimitMemory under persistent pressure (step-count monitor), directories with sub-directories and symbolic links as input, a named pipe among several input files, -o to an existing longer file, obiconvert with its standard error on a pseudo terminal (single and paired). " +
+			"Added later: LimitMemory under persistent pressure (step-count monitor), directories with sub-directories and symbolic links as input, a named pipe among several input files, -o to an existing longer file, obiconvert with its standard error on a pseudo terminal (single and paired). One of several input files given as a multi-member gzip file. " +
 			"distinct_nontrivial = distinct (combinator, partition, arrival order, parameters) with at least one out-of-order arrival or at least one empty batch / empty stream",
 		Assume: []string{"the specification table of DESIGN.md Appendix A.1", "termination is decided in the bounded form: output closed after the last input batch was pushed; a dead-lock is a goroutine dump in which every workload/library goroutine is blocked"},
 		Subs: []core.Sub{
